@@ -1,6 +1,422 @@
-//! `asm` stream: placeholder, filled in below
-pub struct AsmState;
+//! `asm` stream: drives the real assemblers (`SimpleAssembler`, `VecAssembler<R>`, `Assembler<R>`, `Modifier`,
+//! `UncommittedModifier`, `LitPool`) with the operations of DESIGN.md appendix A.
+
+use dynasmrt::components::LitPool;
+use dynasmrt::relocations::{Relocation, RelocationSize};
+use dynasmrt::{aarch64::Aarch64Relocation, riscv::RiscvRelocation, x64::X64Relocation, x86::X86Relocation};
+use dynasmrt::{Assembler, AssemblyOffset, DynamicLabel, DynasmApi, DynasmError, DynasmLabelApi, LabelKind, SimpleAssembler,
+    TargetKind, UncommittedModifier, VecAssembler};
+use std::io::Write;
+use std::panic::{catch_unwind, AssertUnwindSafe};
+
+use crate::reloc::{a64_code, rv_code};
+use crate::util::*;
+
+const NAMES: [&str; 32] = ["L0", "L1", "L2", "L3", "L4", "L5", "L6", "L7", "L8", "L9", "L10", "L11", "L12", "L13", "L14", "L15",
+    "L16", "L17", "L18", "L19", "L20", "L21", "L22", "L23", "L24", "L25", "L26", "L27", "L28", "L29", "L30", "L31"];
+
+fn name(ix: &str) -> Option<&'static str> { NAMES.get(ix.parse::<usize>().ok()?).copied() }
+fn name_ix(n: &str) -> usize { NAMES.iter().position(|x| *x == n).unwrap_or(999) }
+
+pub trait MkReloc: Relocation + Sized {
+    fn mk(fmt: &str) -> Option<Self>;
+}
+fn size_code(s: &str) -> Option<u8> { match s { "1" => Some(1), "2" => Some(2), "4" => Some(4), "8" => Some(8), _ => None } }
+impl MkReloc for X64Relocation {
+    fn mk(fmt: &str) -> Option<Self> { Some(Self::from_encoding((size_code(fmt.strip_prefix("x64.")?)?,))) }
+}
+impl MkReloc for X86Relocation {
+    fn mk(fmt: &str) -> Option<Self> {
+        let rest = fmt.strip_prefix("x86.")?;
+        let (sz, kind) = match rest.split_once('.') { Some((a, b)) => (a, b.parse::<u8>().ok()?), None => (rest, 0) };
+        if kind > 2 { return None; }
+        Some(Self::from_encoding((size_code(sz)?, kind)))
+    }
+}
+impl MkReloc for Aarch64Relocation {
+    fn mk(fmt: &str) -> Option<Self> { Some(Self::from_encoding((a64_code(fmt.strip_prefix("a64.")?)?,))) }
+}
+impl MkReloc for RiscvRelocation {
+    fn mk(fmt: &str) -> Option<Self> { Some(Self::from_encoding((rv_code(fmt.strip_prefix("rv.")?)?,))) }
+}
+
+fn label_kind(l: &LabelKind) -> String {
+    match l {
+        LabelKind::Local(n) => format!("local {}", name_ix(n)),
+        LabelKind::Global(n) => format!("global {}", name_ix(n)),
+        LabelKind::Dynamic(d) => format!("dyn {}", d.get_id()),
+    }
+}
+fn target_kind(t: &TargetKind) -> String {
+    match t {
+        TargetKind::Local(n) => format!("local {}", name_ix(n)),
+        TargetKind::Global(n) => format!("global {}", name_ix(n)),
+        TargetKind::Dynamic(d) => format!("dyn {}", d.get_id()),
+        TargetKind::Extern(a) => format!("extern {}", a),
+        TargetKind::Managed => "managed".to_string(),
+    }
+}
+pub fn show_err(e: &DynasmError) -> String {
+    match e {
+        DynasmError::CheckFailed => "CheckFailed".to_string(),
+        DynasmError::DuplicateLabel(l) => format!("Duplicate({})", label_kind(l)),
+        DynasmError::UnknownLabel(l) => format!("Unknown({})", label_kind(l)),
+        DynasmError::ImpossibleRelocation(t) => format!("Impossible({})", target_kind(t)),
+    }
+}
+
+/// table of `DynamicLabel`s with every id 0..64, minted from a scratch assembler (the id is a plain index, so a label
+/// minted elsewhere is how a caller ends up defining a label "that was never allocated")
+fn dyn_table() -> Vec<DynamicLabel> {
+    let mut scratch: VecAssembler<X64Relocation> = VecAssembler::new(0);
+    (0..64).map(|_| scratch.new_dynamic_label()).collect()
+}
+
+/// plain emission requests, valid on every `DynasmApi`
+fn emit_op<A: DynasmApi>(a: &mut A, ws: &[&str]) -> Option<String> {
+    Some(match ws {
+        ["e", h] => { for b in unhex(h)? { a.push(b); } "ok".into() }
+        ["ex", h] => { let v = unhex(h)?; a.extend(v.iter()); "ok".into() }
+        ["ev", h] => { let v = unhex(h)?; a.extend(v.into_iter()); "ok".into() }
+        ["p16", v] => { a.push_u16(v.parse().ok()?); "ok".into() }
+        ["p32", v] => { a.push_u32(v.parse().ok()?); "ok".into() }
+        ["p64", v] => { a.push_u64(v.parse().ok()?); "ok".into() }
+        ["pi8", v] => { a.push_i8(v.parse().ok()?); "ok".into() }
+        ["pi16", v] => { a.push_i16(v.parse().ok()?); "ok".into() }
+        ["pi32", v] => { a.push_i32(v.parse().ok()?); "ok".into() }
+        ["pi64", v] => { a.push_i64(v.parse().ok()?); "ok".into() }
+        ["al", al, f] => { a.align(al.parse().ok()?, f.parse::<u64>().ok()? as u8); "ok".into() }
+        ["off"] => format!("{}", a.offset().0),
+        _ => return None,
+    })
+}
+
+fn rsize(s: &str) -> Option<RelocationSize> {
+    match s { "1" => Some(RelocationSize::Byte), "2" => Some(RelocationSize::Word), "4" => Some(RelocationSize::DWord), "8" => Some(RelocationSize::QWord), _ => None }
+}
+
+/// label requests + literal pools, valid on every `DynasmLabelApi`
+fn label_op<A: DynasmLabelApi>(a: &mut A, pool: &mut Option<LitPool>, dyns: &[DynamicLabel], ws: &[&str]) -> Option<String>
+where A::Relocation: MkReloc {
+    if pool.is_some() {
+        return Some(match ws {
+            ["pv", sz, v] => {
+                let p = pool.as_mut().unwrap();
+                let v: u64 = v.parse().ok()?;
+                let o = match *sz { "1" => p.push_u8(v as u8), "2" => p.push_u16(v as u16), "4" => p.push_u32(v as u32), "8" => p.push_u64(v), _ => return None };
+                format!("{}", o)
+            }
+            ["pa", sz, f] => { pool.as_mut().unwrap().align(sz.parse().ok()?, f.parse::<u64>().ok()? as u8); "ok".into() }
+            ["pl", k, n, sz] => {
+                let p = pool.as_mut().unwrap();
+                let size = rsize(sz)?;
+                let o = match *k {
+                    "d" => p.push_dynamic(*dyns.get(n.parse::<usize>().ok()?)?, size),
+                    "g" => p.push_global(name(n)?, size),
+                    "f" => p.push_forward(name(n)?, size),
+                    "b" => p.push_backward(name(n)?, size),
+                    _ => return None,
+                };
+                format!("{}", o)
+            }
+            ["}pool"] => { pool.take().unwrap().emit(a); "ok".into() }
+            _ => return None,
+        });
+    }
+    Some(match ws {
+        ["pool{"] => { *pool = Some(LitPool::new()); "ok".into() }
+        ["ll", n] => { a.local_label(name(n)?); "ok".into() }
+        ["gl", n] => { a.global_label(name(n)?); "ok".into() }
+        ["dl", id] => { a.dynamic_label(*dyns.get(id.parse::<usize>().ok()?)?); "ok".into() }
+        ["rf", n, t, f, r, fmt] => { a.forward_relocation(name(n)?, t.parse().ok()?, f.parse().ok()?, r.parse().ok()?, A::Relocation::mk(fmt)?); "ok".into() }
+        ["rb", n, t, f, r, fmt] => { a.backward_relocation(name(n)?, t.parse().ok()?, f.parse().ok()?, r.parse().ok()?, A::Relocation::mk(fmt)?); "ok".into() }
+        ["rg", n, t, f, r, fmt] => { a.global_relocation(name(n)?, t.parse().ok()?, f.parse().ok()?, r.parse().ok()?, A::Relocation::mk(fmt)?); "ok".into() }
+        ["rd", id, t, f, r, fmt] => { a.dynamic_relocation(*dyns.get(id.parse::<usize>().ok()?)?, t.parse().ok()?, f.parse().ok()?, r.parse().ok()?, A::Relocation::mk(fmt)?); "ok".into() }
+        ["rx", tg, f, r, fmt] => { a.bare_relocation(tg.parse().ok()?, f.parse().ok()?, r.parse().ok()?, A::Relocation::mk(fmt)?); "ok".into() }
+        _ => return emit_op(a, ws),
+    })
+}
+
+fn unc_op(u: &mut UncommittedModifier, ws: &[&str]) -> Option<String> {
+    Some(match ws {
+        ["goto", n] => { u.goto(AssemblyOffset(n.parse().ok()?)); "ok".into() }
+        ["chk", n] => match u.check(AssemblyOffset(n.parse().ok()?)) { Ok(()) => "ok".into(), Err(e) => format!("err {}", show_err(&e)) },
+        ["chkx", n] => match u.check_exact(AssemblyOffset(n.parse().ok()?)) { Ok(()) => "ok".into(), Err(e) => format!("err {}", show_err(&e)) },
+        _ => return emit_op(u, ws),
+    })
+}
+
+/// run the lines of an `unc{ … }unc` block; returns the answers (one per inner line + the closing line)
+fn run_unc(mut u: UncommittedModifier, lines: &[String]) -> Vec<String> {
+    let mut answers: Vec<String> = Vec::new();
+    let mut dead = false;
+    for l in lines {
+        if dead { answers.push("dead".into()); continue; }
+        let ws: Vec<&str> = l.split_whitespace().collect();
+        if ws == ["}unc"] { answers.push("ok".into()); continue; }
+        match catch_unwind(AssertUnwindSafe(|| unc_op(&mut u, &ws))) {
+            Ok(Some(s)) => answers.push(s),
+            Ok(None) => answers.push("bad-op".into()),
+            Err(_) => { answers.push("panic".into()); dead = true; }
+        }
+    }
+    answers
+}
+
+trait Machine {
+    /// single-line request at top level
+    fn op(&mut self, ws: &[&str]) -> String;
+    /// a block `alter{ … }alter` or `unc{ … }unc`: all lines including opener and closer; one answer per line
+    fn block(&mut self, lines: &[String]) -> Vec<String>;
+    fn is_dead(&self) -> bool;
+}
+
+struct SimpleM { a: Option<SimpleAssembler>, dead: bool }
+impl Machine for SimpleM {
+    fn op(&mut self, ws: &[&str]) -> String {
+        let Some(a) = self.a.as_mut() else { return "dead".into() };
+        match ws {
+            ["buf"] => hex(&a.ops),
+            ["fin"] => { let a = self.a.take().unwrap(); self.dead = true; format!("ok {}", hex(&a.finalize())) }
+            _ => emit_op(a, ws).unwrap_or("bad-op".into()),
+        }
+    }
+    fn block(&mut self, lines: &[String]) -> Vec<String> {
+        let Some(a) = self.a.as_mut() else { return vec!["dead".into(); lines.len()] };
+        if lines[0].trim() != "unc{" { return vec!["bad-op".into(); lines.len()]; }
+        let mut ans = vec!["ok".to_string()];
+        let inner = run_unc(a.alter(), &lines[1..]);
+        if inner.iter().any(|x| x == "panic") { self.dead = true; }
+        ans.extend(inner);
+        ans
+    }
+    fn is_dead(&self) -> bool { self.dead }
+}
+
+struct VecM<R: MkReloc> { a: Option<VecAssembler<R>>, pool: Option<LitPool>, dyns: Vec<DynamicLabel>, dead: bool }
+impl<R: MkReloc> Machine for VecM<R> {
+    fn op(&mut self, ws: &[&str]) -> String {
+        let Some(a) = self.a.as_mut() else { return "dead".into() };
+        match ws {
+            ["nd"] => format!("id {}", a.new_dynamic_label().get_id()),
+            ["c"] => match a.commit() { Ok(()) => "ok".into(), Err(e) => format!("err {}", show_err(&e)) },
+            ["fin"] => { let a = self.a.take().unwrap(); self.dead = true; match a.finalize() { Ok(v) => format!("ok {}", hex(&v)), Err(e) => format!("err {}", show_err(&e)) } }
+            ["take"] => match a.take() { Ok(v) => format!("ok {}", hex(&v)), Err(e) => format!("err {}", show_err(&e)) },
+            ["drain"] => match a.drain() { Ok(it) => { let v: Vec<u8> = it.collect(); format!("ok {}", hex(&v)) }, Err(e) => format!("err {}", show_err(&e)) },
+            _ => label_op(a, &mut self.pool, &self.dyns, ws).unwrap_or("bad-op".into()),
+        }
+    }
+    fn block(&mut self, lines: &[String]) -> Vec<String> {
+        let Some(a) = self.a.as_mut() else { return vec!["dead".into(); lines.len()] };
+        if lines[0].trim() != "unc{" { return vec!["bad-op".into(); lines.len()]; }
+        let mut ans = vec!["ok".to_string()];
+        let inner = run_unc(a.alter(), &lines[1..]);
+        if inner.iter().any(|x| x == "panic") { self.dead = true; }
+        ans.extend(inner);
+        ans
+    }
+    fn is_dead(&self) -> bool { self.dead }
+}
+
+/// `first_reader` is an `Executor` taken right after construction and kept for the whole life of the assembler: every later
+/// observation goes through it *and* through a fresh `reader()`, and the two must agree (an executor never goes stale).
+struct AsmM<R: MkReloc> { a: Option<Assembler<R>>, pool: Option<LitPool>, dyns: Vec<DynamicLabel>, dead: bool, addr: usize, first_reader: Option<dynasmrt::Executor> }
+impl<R: MkReloc> AsmM<R> {
+    fn cur_addr(a: &Assembler<R>) -> usize { a.reader().lock().as_ptr() as usize }
+    fn addr_answer(&mut self) -> String {
+        let now = Self::cur_addr(self.a.as_ref().unwrap());
+        let moved = now != self.addr;
+        self.addr = now;
+        format!("ok addr={} moved={}", now, moved as u8)
+    }
+}
+impl<R: MkReloc> Machine for AsmM<R> {
+    fn op(&mut self, ws: &[&str]) -> String {
+        let Some(a) = self.a.as_mut() else { return "dead".into() };
+        match ws {
+            ["nd"] => format!("id {}", a.new_dynamic_label().get_id()),
+            ["c"] => match a.commit() { Ok(()) => self.addr_answer(), Err(e) => format!("err {}", show_err(&e)) },
+            ["buf"] => {
+                let fresh = { let r = a.reader(); let g = r.lock(); hex(&g) };
+                let old = { let g = self.first_reader.as_ref().unwrap().lock(); hex(&g) };
+                if fresh == old { fresh } else { format!("{} stale-executor-sees={}", fresh, old) }
+            }
+            ["ptr", n] => {
+                let Ok(n) = n.parse::<usize>() else { return "bad-op".into() };
+                let r = a.reader();
+                let g = r.lock();
+                let p = g.ptr(AssemblyOffset(n));
+                format!("{}", unsafe { *p })
+            }
+            ["fin"] => {
+                let a = self.a.take().unwrap();
+                self.dead = true;
+                self.first_reader = None;
+                match a.finalize() {
+                    Ok(buf) => format!("ok addr={} {}", buf.as_ptr() as usize, hex(&buf)),
+                    Err(_) => "err still-borrowed".into(),
+                }
+            }
+            _ => label_op(a, &mut self.pool, &self.dyns, ws).unwrap_or("bad-op".into()),
+        }
+    }
+    fn block(&mut self, lines: &[String]) -> Vec<String> {
+        let n = lines.len();
+        if self.a.is_none() { return vec!["dead".into(); n]; }
+        match lines[0].trim() {
+            "unc{" => {
+                let a = self.a.as_mut().unwrap();
+                let mut ans = vec!["ok".to_string()];
+                let inner = run_unc(a.alter_uncommitted(), &lines[1..]);
+                if inner.iter().any(|x| x == "panic") { self.dead = true; }
+                ans.extend(inner);
+                ans
+            }
+            "alter{" => {
+                let dyns = self.dyns.clone();
+                let a = self.a.as_mut().unwrap();
+                let mut inner: Vec<String> = Vec::new();
+                let mut ran = false;
+                let res = catch_unwind(AssertUnwindSafe(|| {
+                    a.alter(|m| {
+                        ran = true;
+                        let mut pool: Option<LitPool> = None;
+                        for l in &lines[1..n - 1] {
+                            let ws: Vec<&str> = l.split_whitespace().collect();
+                            // a panic unwinds through the closure (and poisons the lock, like in a user's program)
+                            inner.push("panic".into());
+                            let s = match ws.as_slice() {
+                                ["goto", k] => match k.parse() { Ok(k) => { m.goto(AssemblyOffset(k)); "ok".to_string() } Err(_) => "bad-op".into() },
+                                ["chk", k] => match k.parse() { Ok(k) => match m.check(AssemblyOffset(k)) { Ok(()) => "ok".into(), Err(e) => format!("err {}", show_err(&e)) }, Err(_) => "bad-op".into() },
+                                ["chkx", k] => match k.parse() { Ok(k) => match m.check_exact(AssemblyOffset(k)) { Ok(()) => "ok".into(), Err(e) => format!("err {}", show_err(&e)) }, Err(_) => "bad-op".into() },
+                                _ => label_op(m, &mut pool, &dyns, &ws).unwrap_or("bad-op".into()),
+                            };
+                            *inner.last_mut().unwrap() = s;
+                        }
+                    })
+                }));
+                let mut ans: Vec<String> = Vec::new();
+                match res {
+                    Ok(Ok(())) => {
+                        ans.push(self.addr_answer());
+                        ans.extend(inner);
+                        ans.push("ok".into());
+                    }
+                    Ok(Err(e)) => {
+                        if ran {
+                            ans.push(self.addr_answer());
+                            ans.extend(inner);
+                            ans.push(format!("err {}", show_err(&e)));
+                        } else {
+                            ans.push(format!("err {}", show_err(&e)));
+                            ans.extend(std::iter::repeat("skipped".to_string()).take(n - 2));
+                            ans.push(format!("err {}", show_err(&e)));
+                        }
+                    }
+                    Err(_) => {
+                        self.dead = true;
+                        if !ran {
+                            ans.push("panic".into());
+                        } else {
+                            // the address cannot be read any more (lock poisoned): report the last known one
+                            ans.push(format!("ok addr={} moved=?", self.addr));
+                            ans.extend(inner);
+                        }
+                        if ans.iter().all(|x| x != "panic") { ans.push("panic".into()); }
+                        while ans.len() < n { ans.push("dead".into()); }
+                    }
+                }
+                ans
+            }
+            _ => vec!["bad-op".into(); n],
+        }
+    }
+    fn is_dead(&self) -> bool { self.dead }
+}
+
+pub struct AsmState {
+    m: Option<Box<dyn Machine>>,
+    block: Vec<String>,
+    depth_kind: Option<String>,
+    dead: bool,
+}
+
 impl AsmState {
-    pub fn new() -> Self { AsmState }
+    pub fn new() -> Self { AsmState { m: None, block: Vec::new(), depth_kind: None, dead: false } }
+
+    fn construct(&mut self, ws: &[&str]) -> String {
+        self.dead = false;
+        self.block.clear();
+        self.depth_kind = None;
+        let dyns = dyn_table();
+        match ws {
+            ["new", "simple"] => { self.m = Some(Box::new(SimpleM { a: Some(SimpleAssembler::new()), dead: false })); "ok".into() }
+            ["new", "vec", fam, base] => {
+                let Some(base) = base.strip_prefix("base=").and_then(|b| b.parse::<usize>().ok()) else { return "bad-op".into() };
+                self.m = Some(match *fam {
+                    "x64" => Box::new(VecM::<X64Relocation> { a: Some(VecAssembler::new(base)), pool: None, dyns, dead: false }) as Box<dyn Machine>,
+                    "x86" => Box::new(VecM::<X86Relocation> { a: Some(VecAssembler::new(base)), pool: None, dyns, dead: false }),
+                    "a64" => Box::new(VecM::<Aarch64Relocation> { a: Some(VecAssembler::new(base)), pool: None, dyns, dead: false }),
+                    "rv" => Box::new(VecM::<RiscvRelocation> { a: Some(VecAssembler::new(base)), pool: None, dyns, dead: false }),
+                    _ => return "bad-op".into(),
+                });
+                "ok".into()
+            }
+            ["new", "asm", fam] => {
+                macro_rules! mk { ($r:ty) => {{
+                    let a = Assembler::<$r>::new().unwrap();
+                    let addr = AsmM::<$r>::cur_addr(&a);
+                    let first_reader = Some(a.reader());
+                    (Box::new(AsmM::<$r> { a: Some(a), pool: None, dyns, dead: false, addr, first_reader }) as Box<dyn Machine>, addr)
+                }}; }
+                let (m, addr) = match *fam {
+                    "x64" => mk!(X64Relocation), "x86" => mk!(X86Relocation), "a64" => mk!(Aarch64Relocation), "rv" => mk!(RiscvRelocation),
+                    _ => return "bad-op".into(),
+                };
+                self.m = Some(m);
+                format!("ok addr={} moved=0", addr)
+            }
+            _ => "bad-op".into(),
+        }
+    }
+
+    /// feed one request line; prints the request(s) and answer(s) once they are known
+    pub fn feed<W: Write>(&mut self, line: &str, out: &mut W) {
+        let ws: Vec<&str> = line.split_whitespace().collect();
+        if self.depth_kind.is_some() {
+            self.block.push(line.to_string());
+            let closer = if self.depth_kind.as_deref() == Some("alter{") { "}alter" } else { "}unc" };
+            if ws == [closer] {
+                let lines = std::mem::take(&mut self.block);
+                self.depth_kind = None;
+                let answers = if self.dead || self.m.is_none() { vec!["dead".to_string(); lines.len()] } else {
+                    let m = self.m.as_mut().unwrap();
+                    let r = catch_unwind(AssertUnwindSafe(|| m.block(&lines)));
+                    match r { Ok(a) => { if m.is_dead() { self.dead = true; } a }, Err(_) => { self.dead = true; vec!["panic".to_string(); lines.len()] } }
+                };
+                for (l, a) in lines.iter().zip(answers.iter()) {
+                    writeln!(out, "{}\n= {}", l.trim(), a).unwrap();
+                }
+            }
+            return;
+        }
+        if ws == ["alter{"] || ws == ["unc{"] {
+            self.depth_kind = Some(ws[0].to_string());
+            self.block.push(line.to_string());
+            return;
+        }
+        writeln!(out, "{}", line.trim()).unwrap();
+        let ans = if ws.first() == Some(&"new") { self.construct(&ws) }
+        else if ws == ["reset"] { self.m = None; self.dead = false; "ok".into() }
+        else if self.dead { "dead".to_string() }
+        else if let Some(m) = self.m.as_mut() {
+            match catch_unwind(AssertUnwindSafe(|| m.op(&ws))) {
+                Ok(s) => { if m.is_dead() { self.dead = true; } s }
+                Err(_) => { self.dead = true; "panic".into() }
+            }
+        } else { "bad-op".into() };
+        writeln!(out, "= {}", ans).unwrap();
+    }
+
     pub fn handle(&mut self, _ws: &[&str]) -> String { "bad-op".into() }
 }
